@@ -13,7 +13,7 @@ binary in a private scratch directory; the observed exit status, stdout bytes,
 stderr non-emptiness and created files must be one of the terminal behaviours the
 machine has for that configuration.
 
-quick:    the seeded 1/17 lattice sample of the universe (MC_Cli_sample.cfg)
+quick:    the seeded 1/5 lattice sample of the universe (MC_Cli_sample.cfg)
 thorough: the whole universe (MC_Cli_all.cfg)
 """
 import concurrent.futures
@@ -26,7 +26,7 @@ import c12_util as cu
 from vlib import Check, run_tlc, tlc_must_pass
 
 PROP = "C12"
-RATE = 17
+RATE = 5
 
 # Every failure action of Cli.tla has its own cause text; TLC's -coverage cannot be used on this
 # model (its cost-model construction inlines the nested reference operators and exhausts the heap),
